@@ -21,7 +21,7 @@ TECHNIQUE = "deterministic network simulation of A/B/A request histories through
 LEVEL_TEXT = (
     "For every keyword the pool and connection constructors accept (derived at run time) and two distinct values: request under context A, under B, under A again through one "
     "PoolManager (B supplied by pool_kwargs or both by constructor defaults), on http and https, optionally with an LRU eviction, an idle close or a case/default-port respelling in "
-    "between; the simulated network shows which socket carried which request and which settings reached the socket/TLS seams. The keyword x scheme x mode grid is enumerated."
+    "between; the simulated network shows which socket carried which request and which settings reached the socket/TLS seams. Contexts differing by keyword-not-given vs a falsy but meaningful value (ssl.CERT_NONE, assert_hostname=False, retries=False/0, socket_options=[]) are part of the grid. The keyword x scheme x mode grid is enumerated."
 )
 LEVEL_NOTE = "trusted: the value table for known keywords (unknown keywords get generic values and must be rejected or separate); observation of settings limited to what reaches a seam (bind, socket options, timeouts, TLS wrap arguments)"
 N = {"quick": 700, "thorough": 9000}
